@@ -8,6 +8,9 @@ use snafu::ResultExt;
 use std::io;
 use std::marker::PhantomData;
 
+// Most we ask the input buffer to make room for ahead of a single read.
+const MAX_RESERVE: usize = 1 << 20;
+
 pub struct FrameBuffer(Inner<AmqpFrameKind>);
 
 impl FrameBuffer {
@@ -109,8 +112,11 @@ impl<Kind: FrameKind> Inner<Kind> {
                     continue;
                 } else {
                     // not enough data, but we know how much we need; try to read that
-                    // much from the stream if it's larger than MIN_READ
-                    reserve = usize::max(MIN_READ, frame_size);
+                    // much from the stream if it's larger than MIN_READ. The size comes
+                    // from the peer: use it as a hint only (the buffer grows as the bytes
+                    // actually arrive), so that a few bytes announcing gigabytes cannot
+                    // make us allocate them.
+                    reserve = usize::max(MIN_READ, usize::min(frame_size, MAX_RESERVE));
                 }
             }
 
